@@ -145,7 +145,7 @@ func reachableWithin(from, to *ssa.BasicBlock, comp []int, scc int, avoid *ssa.B
 func init() {
 	core.Register(&core.Rule{
 		Name: "R-CANDLOOP",
-		Doc: "Candidate loops of the reverse strategies do linear total work: in package meta, (1) every backward DFA scan (SearchReverse*, IsMatchReverse of dfa/lazy) called inside a loop has a lower bound that advances with the loop (it depends on a loop-carried variable that is updated inside the loop: the resume position of a match-iteration loop, or the anti-quadratic guard minStart); a constant lower bound lets every candidate scan back to the start of the haystack: candidates x n steps; (2) on every path from a limited scan back to the loop head the guard is updated (a path that keeps it lets the next candidate rescan the same bytes); (3) the branch taken on the 'scan was cut short' signal (SearchReverseLimitedQuadratic) leaves the loop on every path: the fallback it runs is a full O(states x n) search, so running it per candidate is quadratic again; (4) a forward scan over the un-resliced haystack that starts at a loop-carried candidate position and can be repeated by the loop - decided for UNANCHORED scans started at the candidate itself (a failure has already covered every start position up to the end) and for anchored scans whose candidates come from a byte-class finder (DigitPrefilter: every byte of a run is a candidate); anchored verification of literal-prefilter candidates and scans of haystack windows are not decided - needs a progress or budget guard: either the next position depends on the scan's result (a match-iteration loop resumes behind the match), or some loop-carried variable that the loop updates is compared with something other than len(haystack) in a branch that leaves the loop (a failure budget, or 'candidate before the end of the last scan'); otherwise every candidate may scan to the end of the haystack: candidates x n steps. Necessary for C05 (time linear in n for a fixed pattern).",
+		Doc: "Candidate loops of the reverse strategies do linear total work: in package meta, (1) every backward DFA scan (SearchReverse*, IsMatchReverse of dfa/lazy) called inside a loop has a lower bound that advances with the loop (it depends on a loop-carried variable that is updated inside the loop: the resume position of a match-iteration loop, or the anti-quadratic guard minStart); a constant lower bound lets every candidate scan back to the start of the haystack: candidates x n steps; (2) on every path from a limited scan back to the loop head the guard is updated (a path that keeps it lets the next candidate rescan the same bytes); (3) the branch taken on the 'scan was cut short' signal (SearchReverseLimitedQuadratic) leaves the loop on every path: the fallback it runs is a full O(states x n) search, so running it per candidate is quadratic again; (4) a forward scan over the un-resliced haystack that starts at a loop-carried candidate position and can be repeated by the loop - decided for UNANCHORED scans started at the candidate itself (a failure has already covered every start position up to the end) and for anchored scans whose candidates come from a byte-class finder (DigitPrefilter: every byte of a run is a candidate) or that belong to a searcher of the frozen table of demonstrated cases (ReverseInnerSearcher: the suffix behind the inner literal is an arbitrary pattern tail); other anchored verification of literal-prefilter candidates and scans of haystack windows are not decided - needs a progress or budget guard: either the next position depends on the scan's result (a match-iteration loop resumes behind the match), or some loop-carried variable that the loop updates is compared with something other than len(haystack) in a branch that leaves the loop (a failure budget, or 'candidate before the end of the last scan'); otherwise every candidate may scan to the end of the haystack: candidates x n steps. Necessary for C05 (time linear in n for a fixed pattern).",
 		Min: 25, NeedSSA: true,
 		Run: func(p *core.Prog) *core.RuleResult {
 			res := &core.RuleResult{}
@@ -338,7 +338,7 @@ func forwardScanObligation(p *core.Prog, fn *ssa.Function, b *ssa.BasicBlock, c 
 	// candidate itself; (b) an anchored scan whose candidates come from a byte-class finder (every byte of a run is a candidate)
 	anchored := strings.Contains(cal.Name(), "Anchored")
 	if anchored {
-		if !candidateFromByteClassFinder(startArg, 0) {
+		if !candidateFromByteClassFinder(startArg, 0) && anchoredVerifyDecided(fn) == "" {
 			return core.Obligation{}, false
 		}
 	} else if fromReverseScan(startArg, 0) {
@@ -430,6 +430,9 @@ func forwardScanObligation(p *core.Prog, fn *ssa.Function, b *ssa.BasicBlock, c 
 	}
 	o.Status = core.Violated
 	o.Detail = "the forward scan starts at every candidate the loop finds and may run to the end of the haystack; the next candidate does not depend on how far the scan went and no budget or progress guard leaves the loop: k failing candidates cost k x n steps (\\d\\d*-x on a long run of digits)"
+	if why := anchoredVerifyDecided(fn); why != "" && anchored {
+		o.Detail += "; " + why
+	}
 	return o, true
 }
 
@@ -515,6 +518,19 @@ func candidateFromByteClassFinder(v ssa.Value, depth int) bool {
 		}
 	}
 	return false
+}
+
+// anchoredVerifyDecided: searchers whose anchored forward verification of literal candidates is decided by clause (4),
+// each with the input that showed the cost (frozen table; other literal-candidate verifications stay undecided
+// because no input could be produced that makes them quadratic).
+func anchoredVerifyDecided(fn *ssa.Function) string {
+	if fn.Signature.Recv() == nil {
+		return ""
+	}
+	if strings.HasSuffix(fn.Signature.Recv().Type().String(), "meta.ReverseInnerSearcher") {
+		return "the suffix behind the inner literal is an arbitrary pattern tail: \\d+foo[a-z0-9]*[A-Z] on '1fooabababab' x k scans from every 'foo' to the end of the haystack (k=4000: 0.25 s, k=8000: 0.98 s; regexp 3 ms)"
+	}
+	return ""
 }
 
 // fromReverseScan: v is (arithmetic on) the result of a backward DFA scan.
